@@ -297,6 +297,7 @@ type vfC01Env struct {
 	rsrc     map[*query.Regexp]string
 	rsrc2    map[*regexp.Regexp]string
 	focusSet []bool
+	xcls     []string // classes of the generated regexp sources (separator kind, line placement of the literals), for the input histogram
 }
 
 func vfC01Sub(r *vfRand, s string) string {
@@ -358,7 +359,39 @@ func (e *vfC01Env) pat(r *vfRand) string {
 // sameLineSrc: regexps of the distilled same-line shape (andLineMatchTree): 2-3 literals of >= 3 runes taken from ONE line of a
 // document, joined by .*, in text order or (25 %) reversed; the first literal often starts at column 0, the last often ends at the
 // end of the line. "" if no suitable line exists.
+// col0Src: W0.*W1 where W0 starts a line (column 0; offset 0 of the file on the first line), W1 stands later on the same line and
+// W0 has MORE occurrences in the document than W1: andLineMatchTree then takes the lines from W1's candidates and has to accept the
+// candidate of W0 that sits exactly on the line start.
+func (e *vfC01Env) col0Src(r *vfRand) string {
+	var cands []string
+	for _, dd := range e.docs {
+		for _, line := range strings.Split(dd.content, "\n") {
+			ws := strings.FieldsFunc(line, func(c rune) bool { return c == ' ' || c == '-' })
+			if len(ws) < 2 || len([]rune(ws[0])) < 3 || !strings.HasPrefix(line, ws[0]) {
+				continue
+			}
+			for _, w1 := range ws[1:] {
+				if len([]rune(w1)) < 3 || strings.Contains(w1, ws[0]) || strings.Contains(ws[0], w1) {
+					continue
+				}
+				if strings.Count(dd.content, ws[0]) > strings.Count(dd.content, w1) {
+					cands = append(cands, stdregexp.QuoteMeta(ws[0])+".*"+stdregexp.QuoteMeta(w1))
+				}
+			}
+		}
+	}
+	if len(cands) == 0 {
+		return ""
+	}
+	return cands[r.Intn(len(cands))]
+}
+
 func (e *vfC01Env) sameLineSrc(r *vfRand) string {
+	if r.Chance(45) {
+		if s := e.col0Src(r); s != "" {
+			return s
+		}
+	}
 	for try := 0; try < 8; try++ {
 		if len(e.docs) == 0 {
 			return ""
@@ -440,9 +473,220 @@ func (e *vfC01Env) sameLineSrc(r *vfRand) string {
 	return ""
 }
 
+// separators between two literals of a regexp. nl = the separator can match a newline (the same-line conjunction of
+// regexpToMatchTreeRecursive would be unsound for it), !nl = it cannot.
+var vfC01SepsDotAllStar = []string{`(?s:.*)`, `(?s:.)*`, `[\s\S]*`, `(?:.|\n)*`, `(?s:.*?)`, `(?sU:.*)`, `(?s-U:.*)`, `(?is:.*)`, `(?ms:.*)`, `(?s:.)*?`, `(?:\n|.)*`, `[\d\D]*`, `[\x00-\x{10FFFF}]*`}
+var vfC01SepsNL = []string{`(?s:.+)`, `[^q]*`, `\s*`, `\s+`, `\n`, `\n+`, `.*\n.*`, `(?s:.{0,6})`, `[\n -~]*`, `(?:\n|.)+`, `(?s:.*).*`, `.*(?s:.*)`, `(?:.*\n)*.*`, `(?m:$)\n(?m:^)`, `(?s:.)+?`}
+var vfC01SepsSL = []string{`.*`, `(?-s:.*)`, `(?U:.*)`, `(?m:.*)`, `(?i:.*)`, `[^\n]*`, `.+`, `.*?`, `(?-s:.)*`, `(?m:.)*`, `(?U:.)*`, `(?i:.)*.*`}
+
+// crossLineSrc: regexps lit SEP lit (SEP lit) whose separators may or may not match newlines (flag groups (?s: (?i: (?m: (?U:,
+// dot-all stars and pluses, [\s\S]*, (?:.|\n)*, \n literals ...), with the literals taken from a line-structured document: the same line /
+// adjacent lines / lines far apart / reversed; the first word of a line (column 0), the last word of a line (the end of the file when the
+// last line has no newline), or a random 3-5 rune cut. The class of the source ("re-sep-nl", "re-sep-sl", + "re-lines-same|adjacent|far|reversed")
+// is returned for the input histogram. "" if no suitable document exists.
+func (e *vfC01Env) crossLineSrc(r *vfRand) (string, []string) {
+	for try := 0; try < 12; try++ {
+		if len(e.docs) == 0 {
+			return "", nil
+		}
+		content := e.docs[r.Intn(len(e.docs))].content
+		raw := strings.Split(content, "\n")
+		var lines []string
+		for _, l := range raw {
+			if len([]rune(l)) >= 3 {
+				lines = append(lines, l)
+			}
+		}
+		if len(lines) == 0 || (len(lines) < 2 && try < 8) {
+			continue
+		}
+		lit := func(line string, k int) string {
+			ws := strings.FieldsFunc(line, func(c rune) bool { return c == ' ' || c == '-' })
+			var big []string
+			for _, w := range ws {
+				if len([]rune(w)) >= 3 {
+					big = append(big, w)
+				}
+			}
+			if len(big) > 0 && r.Chance(70) {
+				switch {
+				case r.Chance(35) && strings.HasPrefix(line, big[0]):
+					return big[0] // column 0
+				case r.Chance(45) && strings.HasSuffix(line, big[len(big)-1]):
+					return big[len(big)-1] // the end of the line (the end of the file on the last line without newline)
+				}
+				return big[r.Intn(len(big))]
+			}
+			ln := []rune(line)
+			n := 3 + r.Intn(3)
+			if n > len(ln) {
+				n = len(ln)
+			}
+			o := r.Intn(len(ln) - n + 1)
+			switch r.Intn(4) {
+			case 0:
+				o = 0
+			case 1:
+				o = len(ln) - n
+			}
+			return string(ln[o : o+n])
+		}
+		// a literal that itself spans a line break (the end of one line, the newline, the start of the next), joined by a same-line
+		// separator to a literal of the second line: the multi-line literal is NOT singleLine, although every separator is
+		if r.Chance(12) && len(raw) >= 2 {
+			k := r.Intn(len(raw) - 1)
+			a, b := []rune(raw[k]), []rune(raw[k+1])
+			if len(a) >= 2 && len(b) >= 5 {
+				na, nb := 1+r.Intn(min(3, len(a))), 1+r.Intn(2)
+				ml := stdregexp.QuoteMeta(string(a[len(a)-na:]) + "\n" + string(b[:nb]))
+				rest := string(b[nb:])
+				if r.Chance(50) && len(b)-nb > 3 {
+					rest = string(b[len(b)-3:])
+				} else if len(b)-nb > 3 {
+					o := nb + r.Intn(len(b)-nb-2)
+					rest = string(b[o : o+3])
+				}
+				src := ml + r.Pick(vfC01SepsSL) + stdregexp.QuoteMeta(rest)
+				if r.Chance(20) {
+					src = stdregexp.QuoteMeta(string(a[:min(3, len(a))])) + r.Pick(vfC01SepsSL) + src
+				}
+				return src, []string{"re-sep-sl", "re-lit-multiline"}
+			}
+		}
+		nl := 2
+		if r.Chance(25) {
+			nl = 3
+		}
+		i := r.Intn(len(lines))
+		var cls string
+		idx := []int{i}
+		switch x := r.Intn(100); {
+		case x < 20:
+			cls = "re-lines-same"
+			for k := 1; k < nl; k++ {
+				idx = append(idx, i)
+			}
+		case x < 55:
+			cls = "re-lines-adjacent"
+			if i+nl-1 >= len(lines) {
+				i = max(0, len(lines)-nl)
+			}
+			idx = []int{i}
+			for k := 1; k < nl; k++ {
+				idx = append(idx, min(i+k, len(lines)-1))
+			}
+		case x < 80:
+			cls = "re-lines-far"
+			idx = []int{0}
+			for k := 1; k < nl; k++ {
+				idx = append(idx, len(lines)-1)
+			}
+			if nl == 3 && len(lines) > 2 {
+				idx[1] = 1 + r.Intn(len(lines)-2)
+			}
+		case x < 90:
+			cls = "re-lines-reversed"
+			idx = []int{len(lines) - 1}
+			for k := 1; k < nl; k++ {
+				idx = append(idx, r.Intn(len(lines)))
+			}
+			idx[nl-1] = 0
+		default:
+			cls = "re-lines-random"
+			for k := 1; k < nl; k++ {
+				idx = append(idx, r.Intn(len(lines)))
+			}
+		}
+		var ls []string
+		for k, li := range idx {
+			ls = append(ls, lit(lines[li], k))
+		}
+		shared := false // the literals also occur together on one line
+		for _, l := range raw {
+			all := true
+			for _, x := range ls {
+				all = all && strings.Contains(l, x)
+			}
+			shared = shared || all
+		}
+		if shared && cls != "re-lines-same" && try < 8 && r.Chance(75) {
+			continue // look for a better placement
+		}
+		var b strings.Builder
+		sepNL := false
+		for k := range idx {
+			if k > 0 {
+				switch x := r.Intn(100); {
+				case x < 50:
+					b.WriteString(r.Pick(vfC01SepsDotAllStar))
+					sepNL = true
+				case x < 74:
+					b.WriteString(r.Pick(vfC01SepsNL))
+					sepNL = true
+				default:
+					b.WriteString(r.Pick(vfC01SepsSL))
+				}
+			}
+			l := stdregexp.QuoteMeta(ls[k])
+			switch r.Intn(12) {
+			case 0:
+				l = "(?i:" + l + ")"
+			case 1:
+				l = "(" + l + ")"
+			case 2:
+				if k == 0 {
+					l = "(?m:^" + l + ")"
+				} else if k == len(idx)-1 {
+					l = "(?m:" + l + "$)"
+				}
+			}
+			b.WriteString(l)
+		}
+		src := b.String()
+		switch r.Intn(14) {
+		case 0:
+			src = "(?s)" + src // now every . of the separators is dot-all
+			sepNL = true
+		case 1:
+			src = "(?s:" + src + ")"
+			sepNL = true
+		case 2:
+			src = "(?i)" + src
+		case 3:
+			src = "(?U)" + src
+		case 4:
+			src = "(?m)" + src
+		case 5:
+			src = "(" + src + ")"
+		}
+		sc := "re-sep-sl"
+		if sepNL {
+			sc = "re-sep-nl"
+		}
+		out := []string{sc, cls}
+		// the interesting class: the regexp matches the document although its literals never share a line
+		hit := false
+		if re, err := stdregexp.Compile("(?m)" + src); err == nil && !shared && re.MatchString(content) {
+			hit = true
+			out = append(out, "re-cross-hit")
+		}
+		if !hit && try < 9 && r.Chance(55) {
+			continue
+		}
+		return src, out
+	}
+	return "", nil
+}
+
 func (e *vfC01Env) regexSrc(r *vfRand) string {
 	if r.Chance(32) {
 		if s := e.sameLineSrc(r); s != "" {
+			return s
+		}
+	}
+	if r.Chance(22) {
+		if s, cls := e.crossLineSrc(r); s != "" {
+			e.xcls = append(e.xcls, cls...)
 			return s
 		}
 	}
@@ -628,6 +872,22 @@ func (e *vfC01Env) atom(r *vfRand) query.Q {
 	d := e.d
 	if r.Chance(14) {
 		return e.symAtom(r)
+	}
+	if r.Chance(13) { // content regexps lit SEP lit with newline-capable / same-line separators, literals on the same / adjacent / distant lines
+		if src, cls := e.crossLineSrc(r); src != "" {
+			if re, err := syntax.Parse(src, syntax.ClassNL|syntax.PerlX|syntax.UnicodeGroups); err == nil {
+				re = query.OptimizeRegexp(re, syntax.ClassNL|syntax.PerlX|syntax.UnicodeGroups)
+				if re.Op != syntax.OpEmptyMatch {
+					q := &query.Regexp{Regexp: re, CaseSensitive: r.Chance(60), Content: true}
+					if r.Chance(12) {
+						q.Content = false // file name or content
+					}
+					e.rsrc[q] = src
+					e.xcls = append(e.xcls, cls...)
+					return q
+				}
+			}
+		}
 	}
 	if r.Chance(9) { // content regexps of the same-line shape lit.*lit(.*lit): andLineMatchTree
 		if src := e.sameLineSrc(r); src != "" {
@@ -1415,6 +1675,9 @@ func TestVerifC01(t *testing.T) {
 			}
 			classes := map[string]bool{}
 			vfC01QueryClasses(q, classes)
+			for _, c := range e.xcls {
+				classes[c] = true
+			}
 			if err != nil {
 				var dd []map[string]any
 				for _, x := range docs {
